@@ -18,11 +18,24 @@ func nontrivialLedger(c *sim.Ctx) bool {
 	return c.Counters["block.accepted"]+c.Counters["block.created"] >= 2 && faults >= 1
 }
 
+func faultCount(c *sim.Ctx) int64 {
+	n := int64(0)
+	for k, v := range c.Counters {
+		if len(k) > 6 && k[:6] == "fault." {
+			n += v
+		}
+	}
+	return n
+}
+
 func TestWorker(t *testing.T) {
 	led := sim.Engine{Run: runLedger, Nontrivial: nontrivialLedger}
 	crash := sim.Engine{Run: runCrash, Nontrivial: func(c *sim.Ctx) bool { return c.Counters["crash.states"] >= 4 }}
 	sim.WorkerMain(t, map[string]sim.Engine{
 		"C08": crash,
+		"C33": {Run: runSync, Nontrivial: func(c *sim.Ctx) bool {
+			return c.Counters["probe.blocks_appended_from_givb"] >= 1 && faultCount(c) >= 1
+		}},
 		"C01": led, "C02": led, "C03": led, "C04": led, "C05": led, "C06": led, "C07": led,
 	})
 }
